@@ -1578,13 +1578,10 @@ pub fn parse_data(input: TokenStream) -> Data {
 
     let attributes = next_attributes_list(&mut source);
 
-    let pub_or_type = next_ident(&mut source).expect("Not an ident");
+    // skips `pub` as well as restricted visibilities such as `pub(crate)`
+    let _visibility = next_visibility_modifier(&mut source);
 
-    let type_keyword = if pub_or_type == "pub" {
-        next_ident(&mut source).expect("pub(whatever) is not supported yet")
-    } else {
-        pub_or_type
-    };
+    let type_keyword = next_ident(&mut source).expect("Not an ident");
 
     let res;
 
